@@ -980,6 +980,11 @@ class Models:
             return SV(st.fresh_const("strof", TStr.sort()), TStr)
         if name == "print" or name.startswith("LOGGER.") or name in ("warnings.warn", "warn"):
             return None
+        if name in ("time.time", "time.perf_counter", "timeit.default_timer") and not args:
+            # wall clock: a havoc'ed non-negative real (DESIGN §2.2)
+            t = st.fresh_const("time", z3.RealSort())
+            st.assume(t >= 0)
+            return SV(t, TReal)
         if name == "id":
             if isinstance(args[0], Ref):
                 return args[0].id
